@@ -525,6 +525,19 @@ pub fn scratch_base() -> PathBuf {
     p
 }
 
+pub fn scratch_base_disk() -> PathBuf {
+    let p = crate::engine::root().join("out").join("scratch").join(format!("pv-{}", std::process::id()));
+    let _ = std::fs::create_dir_all(&p);
+    p
+}
+
+/// Removes this process's scratch directories (called when a run ends normally).
+pub fn remove_scratch() {
+    let base = if Path::new("/dev/shm").is_dir() { PathBuf::from("/dev/shm") } else { std::env::temp_dir() };
+    let _ = std::fs::remove_dir_all(base.join(format!("pv-{}", std::process::id())));
+    let _ = std::fs::remove_dir_all(crate::engine::root().join("out").join("scratch").join(format!("pv-{}", std::process::id())));
+}
+
 pub const EXTRA_TABLES: [&str; 3] = ["xa", "xb", "xc"];
 
 /// Really closes a store: heed keeps every opened LMDB environment alive in a process-global
@@ -613,7 +626,14 @@ pub fn extra_names(n: usize) -> Vec<&'static str> {
 
 impl World {
     pub fn new(n_extra: usize) -> Result<World, Fail> {
-        let tmp = tempfile::Builder::new().prefix("w").tempdir_in(scratch_base()).map_err(|e| Fail::new("harness:tempdir", e.to_string()))?;
+        World::new_on(n_extra, false)
+    }
+
+    /// `disk`: the directory lives on the file system that holds the verification root (ext4 here) instead of
+    /// tmpfs: a block file system treats the part of a file's last page that lies beyond end-of-file differently.
+    pub fn new_on(n_extra: usize, disk: bool) -> Result<World, Fail> {
+        let base = if disk { scratch_base_disk() } else { scratch_base() };
+        let tmp = tempfile::Builder::new().prefix("w").tempdir_in(base).map_err(|e| Fail::new("harness:tempdir", e.to_string()))?;
         let p = tmp.path().to_path_buf();
         World::at(Dir { tmp: Some(tmp), p }, n_extra)
     }
